@@ -260,6 +260,11 @@ func runFreeWire(t *testing.T, rc *RunCtx) {
 		for _, a := range n.Pop.Accts[:8] {
 			keys = append(keys, a.PubKey)
 		}
+		// ... and the account the creators keep locking and unlocking: a request for it may find it locked at
+		// any stage, including the last one.
+		if a := n.Pop.ByPath("Wallet 1/Account 40"); a != nil {
+			keys = append(keys, a.PubKey, a.PubKey)
+		}
 		for cIdx := 0; cIdx < creators; cIdx++ {
 			wgC.Add(1)
 			go func(cIdx int) {
